@@ -217,6 +217,12 @@ func H_C10_alias_index() {
 		t := vrt.Concretize(vrt.Int("to", 1, 3))
 		vrt.Assume(f < t)
 		index := []tensor.Range{{From: f, To: t}}
+		switch vrt.Concretize(vrt.Int("form", 0, 2)) { // partial, full-rank explicit, full-rank with {0,0}
+		case 1:
+			index = append(index, tensor.Range{From: 0, To: 2})
+		case 2:
+			index = append(index, tensor.Range{})
+		}
 		y, err := x.Slice(index)
 		if err != nil {
 			vrt.Assert("accepted", false)
@@ -237,6 +243,12 @@ func H_C10_alias_index() {
 		p, _ := mk("p", []int{1, 2}, true)
 		f := vrt.Concretize(vrt.Int("from", 0, 2))
 		index := []tensor.Range{{From: f, To: f + 1}}
+		switch vrt.Concretize(vrt.Int("form", 0, 2)) {
+		case 1:
+			index = append(index, tensor.Range{From: 0, To: 2})
+		case 2:
+			index = append(index, tensor.Range{})
+		}
 		y, err := x.Patch(index, p)
 		if err != nil {
 			vrt.Assert("accepted", false)
